@@ -35,7 +35,8 @@ def run(ctx) -> None:
     from ._parser import instr_patterns, operands_from_operand_group
     _paths, _sites, _pats = instr_patterns(make_interp(ctx.p))
     operands_from_operand_group(ctx, "C07.H.operands-only-from-operand-group", make_interp(ctx.p), _sites)
-    from ._parser import site_field_kinds
+    from ._parser import parser_never_swallows, site_field_kinds
+    parser_never_swallows(ctx, "C07.H.no-instruction-silently-dropped")
     site_field_kinds(ctx, "C07.H.address-field-is-the-line-address", make_interp(ctx.p), _sites)
     # P5: Lemma B is about a search over the whole stream from its first character (no pos/endpos, no slice)
     from ._matchrules import scan_rules
